@@ -857,6 +857,11 @@ class LoopMon:
             return
         if t[0] not in ("POLL", "POLLT"):
             return
+        if ans.startswith("PANIC"):
+            if not getattr(self, "panicked", False):
+                self.v("C10", "EventLoop::poll() panicked at `%s` (the last packets the broker wrote: %s)" % (line, [w[1] for w in self.wq][-3:]))
+            self.panicked = True
+            return
         m = LOOP_WIRE.match(ans)
         if not m:
             if ans not in ("AMBIG", "NOCONN", "DISABLED"):
@@ -1297,6 +1302,68 @@ def loop_family(model, ver, mx, k):
         yield ops, answers
 
 
+def loop_renegotiate_family(model):
+    """v5 only: a CONNACK that lowers receive-maximum below the id of a publish still unacknowledged,
+    then a second failure before it is acknowledged (clean() must hand back slots above the negotiated
+    limit too): max_inflight mx, mx publishes, the first a acknowledged, failure, resume with
+    receive-maximum rm < mx, j more acks, second failure, resume, everything acknowledged"""
+    for mx in (2, 3, 4):
+        for q2 in (0, 1):
+            for a in range(mx):
+                for rm in range(1, mx):
+                    for j in range(0, 3):
+                        for rm2 in ("-", "1"):
+                            ops, answers = [], []
+
+                            def do(op):
+                                model.stdin.write(op + "\n"); model.stdin.flush()
+                                x = model.stdout.readline().rstrip("\n")
+                                ops.append(op); answers.append(x)
+                                return x
+
+                            wire = []
+
+                            def settle():
+                                x = "IDLE"
+                                for _ in range(12):
+                                    x = do("POLL")
+                                    m = LOOP_WIRE.match(x)
+                                    if m:
+                                        wire.extend(w for w in m.group(3).split() if w.startswith(("PUB:", "PUBREL:")))
+                                    if x.startswith(("IDLE", "ERROR") + LOOP_CUT):
+                                        break
+                                return x
+
+                            def ack_next(n):
+                                """acknowledge up to n of what is on the wire of this connection, oldest first"""
+                                for _ in range(n):
+                                    if not wire:
+                                        return
+                                    f = wire.pop(0).split(":")
+                                    if f[0] == "PUBREL":
+                                        do("NET PUBCOMP %s" % f[1])
+                                    elif f[1] == "1":
+                                        do("NET PUBACK %s" % f[2])
+                                    else:
+                                        do("NET PUBREC %s" % f[2])
+                                    settle()
+
+                            do("LNEW5 %d 0" % mx); do("ACCEPT 1"); settle()
+                            for t in range(1, mx + 1):
+                                do("SEND PUB %d 0 1 %d" % (2 if q2 and t == mx else 1, t))
+                            settle(); ack_next(a)
+                            do("DROP"); settle(); del wire[:]
+                            do("ACCEPT 1 %d" % rm); settle(); ack_next(j)
+                            do("DROP"); settle(); del wire[:]
+                            do("ACCEPT 1 %s" % rm2); settle()
+                            for _ in range(3 * mx):
+                                if not wire:
+                                    break
+                                ack_next(1)
+                            do("FINISH")
+                            yield mx, ops, answers
+
+
 def loop_run(ctx, mexe):
     """end-to-end: the real EventLoop, v4 and v5 (harness bin clientloop) vs Client/Loop.v and
     Client/Loop5.v, plus the loop monitors on the implementation's answers"""
@@ -1335,6 +1402,8 @@ def loop_run(ctx, mexe):
         for (mx, k) in ([(1, 4), (2, 4)] if th else [(1, 3), (2, 3)]):
             for ops, mans in loop_family(model, ver, mx, k):
                 keep(ver, mx, "exhaustive-max%d-moves%d" % (mx, k), ops, mans)
+    for mx, ops, mans in loop_renegotiate_family(model):
+        keep("5", mx, "renegotiate-then-second-failure", ops, mans)
     model.stdin.close(); model.wait()
     for ver, prefix in (("4", "loop"), ("5", "loop5")):
         for h in corpus_histories(ver, prefix):
@@ -1971,7 +2040,8 @@ def run(ctx):
                             "drops incl. inside a read batch, reconnects with/without session, second failure before pending is drained; order: QoS1 in-order with repeated failures; burst: 9-25 packets readable "
                             "in one poll; throttle: pending_throttle > 0 with broker writes during the wait), max_inflight in {1,2,3,4,5}, plus the exhaustive families: every sequence of %d moves over "
                             "{publish QoS1, publish QoS2, PUBACK 1, PUBACK 2, PUBREC 1, PUBCOMP 1, drop+resume, drop+new session} (v5 also: PUBREC 1 with a failure reason, drop+resume with receive-maximum 1, "
-                            "server DISCONNECT) for max_inflight 1 and 2, polled to idle after each move. v5 only: every CONNACK carries a receive-maximum from {absent, 1, 2, max, max+1, 65535, rarely 0}, "
+                            "server DISCONNECT) for max_inflight 1 and 2, polled to idle after each move; v5 also the family 'receive-maximum lowered below a held id, then a second failure': max_inflight 2-4, all in flight, "
+                            "0..max-1 acknowledged, failure, resume with receive-maximum 1..max-1, 0-2 acks, second failure, resume, all acknowledged. v5 only: every CONNACK carries a receive-maximum from {absent, 1, 2, max, max+1, 65535, rarely 0}, "
                             "acks carry reason codes now and then, the server sometimes sends DISCONNECT instead of closing. "
                             "A history is cut where both the network and the request arm of select! are ready (tokio picks at random)" % (4 if th else 3))
     if r["driver_failure"]:
